@@ -435,6 +435,24 @@ def run(ctx):
         sp = {1: ctx.rng.choice([0, 2]), 4: ctx.rng.choice([0, 2, 4])}
         b = R.build_frame(msg.edition, msg.meta, msg.ids, msg.nsub, msg.compressed, data, msg.sec2, sp)
         fixpoint_foreign(ctx, enc, dec, 'R-produced', b, msg.subsets)
+    # a decoded message keeps its values when its rows are handed on and encoded under ANOTHER template (the quantisation of
+    # that other encoding is the other message's business): values on a fine grid, rows re-encoded without the operators
+    B33, D33 = cases.tables(33)
+    shared_rows = [[202129, 12101, 12103, 202000, 1001], [207001, 10004, 12101, 207000, 1002],
+                   [201130, 202130, 12001, 7004, 202000, 201000, 1001], [1001, 202130, 13011, 202000, 207002, 11002, 207000]]
+    for k, ids in enumerate(shared_rows):
+        if not ctx.mine(k):
+            continue
+        for nsub, comp in ((1, False), (3, False), (2, True)):
+            try:
+                msg = R.build_message(ids, B33, D33, R.Policy(ctx.rng), nsub, comp, 4)
+            except R.Unsupported:
+                continue
+            ctx.count('rows_shared_with_a_coarser_template')
+            handover.on_message(ctx, msg.bytes, dict(part='shared-rows', ids=ids, nsub=nsub, compressed=comp, hex=msg.bytes.hex()),
+                                site='shared-rows', p=1.0, quota=100, encoder_returned=0.0,
+                                script=('flat_json', 'encode_rows_under_coarser_template', 'state', 'flat_json', 'encode_rendered_object',
+                                        'query:', 'encode_rows_under_coarser_template', 'encode_rendered_text'))
 
 
 def replay(ctx, case):
